@@ -18,6 +18,8 @@
 
 package remote
 
+import "sync"
+
 // Thin wrappers exporting unexported logic of this package to the verification
 // harness (built only with -tags verif). They add no behaviour.
 
@@ -115,4 +117,28 @@ func VerifSingleRangeMode(bl Blob) bool {
 		return hf.isSingleRangeMode()
 	}
 	return false
+}
+
+// Scheduling points of (*blob).cacheAt ("lookup": before the cache walk, "fetch": before fetchRange,
+// "exit": on return). The harness installs a hook that blocks the calling goroutine until its turn, which
+// makes the concurrent pieces of Cache() run in a chosen interleaving. No hook = no effect.
+var (
+	verifCacheAtMu   sync.Mutex
+	verifCacheAtHook func(point string, offset int64)
+)
+
+// VerifSetCacheAtHook installs (or, with nil, removes) the cacheAt scheduling hook.
+func VerifSetCacheAtHook(h func(point string, offset int64)) {
+	verifCacheAtMu.Lock()
+	verifCacheAtHook = h
+	verifCacheAtMu.Unlock()
+}
+
+func verifCacheAtPoint(point string, offset int64) {
+	verifCacheAtMu.Lock()
+	h := verifCacheAtHook
+	verifCacheAtMu.Unlock()
+	if h != nil {
+		h(point, offset)
+	}
 }
